@@ -22,10 +22,12 @@ Section Generic.
   Notation check_fn := (check_fn leqb guard rank nb ord).
   Notation thread := (@thread L F).
   Notation pool := (@pool L F).
-  Notation tstep := (@tstep L F leqb).
-  Notation step := (@step L F leqb).
-  Notation exec := (@exec L F leqb).
-  Notation steps := (@steps L F leqb).
+  (* threads may jump to any code the checker accepts from the locks they hold *)
+  Definition jump_chk (ls : @lockset L) (k : list (stmt L F)) : Prop := check_cont ls k = true.
+  Notation tstep := (@tstep L F leqb jump_chk).
+  Notation step := (@step L F leqb jump_chk).
+  Notation exec := (@exec L F leqb jump_chk).
+  Notation steps := (@steps L F leqb jump_chk).
   Notation free := (@free L F leqb).
   Notation no_ex := (@no_ex L F leqb).
   Notation race := (@race L F).
@@ -171,6 +173,7 @@ Section Generic.
     - destruct (held (guard f) ls) as [[|]|] eqn:E; try discriminate. exact Hc.
     - match type of Hc with context [if ?c then _ else _] => destruct c end; [exact Hc|discriminate].
     - destruct ls; try discriminate. reflexivity.
+    - exact H.
   Qed.
 
   (* how the stepping thread's lockset may change, relative to the other threads *)
@@ -313,7 +316,158 @@ Section Generic.
     destruct (G _ _ Hc) as (ri & (t & Ht & Hw) & Hlt).
     specialize (Hlt _ _ Ht Hw). lia.
   Qed.
+  (* ---------------------------------------------------------------- one critical section per operation *)
+  Notation sec := (sec leqb guard).
+  Notation sec_cont := (sec_cont leqb guard).
+  Notation phase_eqb := (phase_eqb leqb).
+
+  (* what an event does to the phase of a single-section thread (None = not allowed) *)
+  Definition ev_phase (ph : @phase L) (e : @event L F) : option (@phase L) :=
+    match ph, e with
+    | Before, ETau | Before, EBlock _ | Before, ERet => Some Before
+    | Before, EAcq m _ => Some (Inside m)
+    | Inside m, ETau | Inside m, EBlock _ => Some (Inside m)
+    | Inside m, ERd f | Inside m, EWr f => if leqb (guard f) m then Some (Inside m) else None
+    | Inside m, ERel m' => if leqb m' m then Some After else None
+    | After, ETau | After, EBlock _ | After, ERet => Some After
+    | _, _ => None
+    end.
+
+  (* the locks a single-section thread holds are determined by its phase *)
+  Definition phase_locks (ph : @phase L) (ls : @lockset L) : Prop :=
+    match ph with
+    | Before | After => ls = []
+    | Inside m => exists md, ls = [(m, md)]
+    end.
+
+  Fixpoint run_phase (i : nat) (ph : @phase L) (tr : list (nat * @event L F)) : option (@phase L) :=
+    match tr with
+    | [] => Some ph
+    | (j, e) :: r =>
+        if Nat.eqb j i
+        then match ev_phase ph e with Some ph' => run_phase i ph' r | None => None end
+        else run_phase i ph r
+    end.
+
+  Lemma phase_eqb_eq a b : phase_eqb a b = true -> a = b.
+  Proof. destruct a, b; cbn; try discriminate; auto. intro H. apply leqb_spec in H. congruence. Qed.
+
+  Lemma phase_eqb_refl a : phase_eqb a a = true.
+  Proof. destruct a; cbn; auto. apply leqb_refl. Qed.
+
+  Lemma tstep_sec p ls k e ls' k' ph :
+    tstep p (ls, k) e (ls', k') -> e <> EJump -> sec_cont ph k = true ->
+    exists ph', ev_phase ph e = Some ph' /\ sec_cont ph' k' = true.
+  Proof.
+    intros Hs Hj Hc. inversion Hs; subst; cbn in Hc.
+    - exists ph. split; [destruct ph; reflexivity|exact Hc].
+    - exists ph. split; [destruct ph; reflexivity|]. cbn.
+      destruct (sec ph a) as [[p1|]|] eqn:Ea; try discriminate; auto.
+    - exists ph. split; [destruct ph; reflexivity|]. cbn.
+      destruct (sec ph a) as [[p1|]|] eqn:Ea; destruct (sec ph b) as [[p2|]|] eqn:Eb; try discriminate; auto.
+      destruct (phase_eqb p1 p2) eqn:E; try discriminate. exact Hc.
+    - exists ph. split; [destruct ph; reflexivity|]. cbn.
+      destruct (sec ph a) as [[p1|]|] eqn:Ea; destruct (sec ph b) as [[p2|]|] eqn:Eb; try discriminate; auto.
+      destruct (phase_eqb p1 p2) eqn:E; try discriminate. apply phase_eqb_eq in E. subst. exact Hc.
+    - exists ph. split; [destruct ph; reflexivity|].
+      destruct (sec ph b) as [[p1|]|] eqn:Eb; try discriminate; auto.
+      destruct (phase_eqb p1 ph) eqn:E; try discriminate. exact Hc.
+    - exists ph. split; [destruct ph; reflexivity|]. cbn.
+      destruct (sec ph b) as [[p1|]|] eqn:Eb; try discriminate; auto.
+      destruct (phase_eqb p1 ph) eqn:E; try discriminate. apply phase_eqb_eq in E. subst.
+      rewrite Eb, phase_eqb_refl. exact Hc.
+    - destruct ph; try discriminate. exists (Inside m). split; [reflexivity|exact Hc].
+    - destruct ph; try discriminate. exists (Inside m). split; [reflexivity|exact Hc].
+    - destruct ph as [|m'|]; try discriminate. destruct (leqb m m') eqn:E; try discriminate.
+      exists After. split; [cbn; rewrite E; reflexivity|exact Hc].
+    - destruct ph as [|m'|]; try discriminate. destruct (leqb (guard f) m') eqn:E; try discriminate.
+      exists (Inside m'). split; [cbn; rewrite E; reflexivity|exact Hc].
+    - destruct ph as [|m'|]; try discriminate. destruct (leqb (guard f) m') eqn:E; try discriminate.
+      exists (Inside m'). split; [cbn; rewrite E; reflexivity|exact Hc].
+    - exists ph. split; [destruct ph; reflexivity|exact Hc].
+    - destruct ph; try discriminate; eexists; split; reflexivity.
+    - congruence.
+  Qed.
+
+  Lemma tstep_phase_locks p ls k e ls' k' ph ph' :
+    tstep p (ls, k) e (ls', k') -> phase_locks ph ls -> ev_phase ph e = Some ph' -> phase_locks ph' ls'.
+  Proof.
+    intros Hs HJ He. inversion Hs; subst; cbn in He;
+      try (destruct ph; inversion He; subst; exact HJ).
+    - destruct ph; try discriminate. inversion He; subst. cbn in HJ. subst. exists Ex. reflexivity.
+    - destruct ph; try discriminate. inversion He; subst. cbn in HJ. subst. exists Sh. reflexivity.
+    - destruct ph as [|m'|]; try discriminate. destruct (leqb m m') eqn:E; try discriminate.
+      inversion He; subst. destruct HJ as [md ->]. cbn. rewrite E. reflexivity.
+    - destruct ph as [|m'|]; try discriminate. destruct (leqb (guard f) m'); inversion He; subst. exact HJ.
+    - destruct ph as [|m'|]; try discriminate. destruct (leqb (guard f) m'); inversion He; subst. exact HJ.
+    - destruct ph; discriminate.
+  Qed.
+
+  Definition no_jump (i : nat) (tr : list (nat * @event L F)) : Prop := ~ In (i, EJump) tr.
+
+  (* the trace of a single-section thread: (no access)* Acq m (accesses of fields of m)* Rel m (no access)* *)
+  Theorem single_section_trace p tr q i :
+    exec p tr q -> no_jump i tr ->
+    forall ls k ph, nth_error p i = Some (ls, k) -> sec_cont ph k = true -> phase_locks ph ls ->
+    exists ph' ls' k', run_phase i ph tr = Some ph' /\ nth_error q i = Some (ls', k') /\
+                       sec_cont ph' k' = true /\ phase_locks ph' ls'.
+  Proof.
+    intros He. induction He as [p|p j e q tr r Hs He IH]; intros Hnj ls k ph Hi Hc HJ.
+    - exists ph, ls, k. cbn. auto.
+    - assert (Hnj' : no_jump i tr) by (intro H; apply Hnj; right; exact H).
+      destruct Hs as [p j [ls0 k0] e [ls1 k1] Hj Ht]. cbn [run_phase].
+      destruct (Nat.eqb j i) eqn:Eji.
+      + apply Nat.eqb_eq in Eji. subst j. rewrite Hi in Hj. inversion Hj; subst ls0 k0.
+        assert (Hne : e <> EJump) by (intro; subst e; apply Hnj; left; reflexivity).
+        destruct (tstep_sec _ _ _ _ _ _ _ Ht Hne Hc) as (ph1 & Hev & Hc1).
+        pose proof (tstep_phase_locks _ _ _ _ _ _ _ _ Ht HJ Hev) as HJ1.
+        rewrite Hev. eapply IH; eauto. eapply nth_upd_same; eauto.
+      + apply Nat.eqb_neq in Eji. eapply IH; eauto. rewrite nth_upd_other by assumption. exact Hi.
+  Qed.
+
+  (* a step of thread j that writes (reads) f: every other thread holds guard f not at all (not exclusively) *)
+  Theorem step_conflict_excluded p j e q i t :
+    inv p -> step p j e q -> nth_error p i = Some t -> i <> j ->
+    (forall f, e = EWr f -> held (guard f) (fst t) = None) /\
+    (forall f, e = ERd f -> held (guard f) (fst t) <> Some Ex).
+  Proof.
+    intros [Hok Hex] Hs Hi Hne. destruct Hs as [p j u e u' Hj Ht]. split; intros f ->.
+    - assert (Ha : at_access u f true) by (inversion Ht; subst; cbn; auto).
+      destruct (at_access_held _ _ _ (Hok _ _ Hj) Ha) as [Hx _].
+      eapply (Hex j i); eauto.
+    - assert (Ha : at_access u f false) by (inversion Ht; subst; cbn; auto).
+      destruct (at_access_held _ _ _ (Hok _ _ Hj) Ha) as [_ Hn].
+      intro Hx. apply Hn. eapply (Hex i j); eauto.
+  Qed.
+
+  (* Per-object atomicity (the part of "equivalent to a serial use" that is proved): while a single-section
+     thread i is inside its section on m, no other thread writes a field guarded by m, and no other thread
+     reads one unless i's own section is a shared one.
+     FULL STATEMENT (not proved, stretch goal of DESIGN.md): for every execution there is an execution with the
+     same per-thread traces in which the events of each critical section are contiguous, and it ends in the same
+     store values - i.e. value-level serial equivalence. What is proved instead: all accesses of an operation lie
+     inside one section (single_section_trace) and sections on the same lock never overlap with a conflicting
+     access (this theorem); values are not modelled by the IR. *)
+  Theorem single_section_atomic_partial p tr p1 i ls k j e p2 m :
+    inv p -> exec p tr p1 -> no_jump i tr ->
+    nth_error p i = Some (ls, k) -> sec_cont Before k = true -> ls = [] ->
+    run_phase i Before tr = Some (Inside m) ->
+    step p1 j e p2 -> j <> i ->
+    (forall f, e = EWr f -> guard f <> m) /\
+    (forall f, e = ERd f -> guard f = m -> exists k1, nth_error p1 i = Some ([(m, Sh)], k1)).
+  Proof.
+    intros Hinv He Hnj Hi Hc Hls Hrun Hs Hne.
+    destruct (single_section_trace _ _ _ _ He Hnj ls k Before Hi Hc Hls) as (ph' & ls' & k' & Hr & Hi1 & _ & HJ).
+    rewrite Hrun in Hr. inversion Hr; subst ph'. destruct HJ as [md ->].
+    pose proof (exec_inv _ _ _ Hinv He) as Hinv1.
+    assert (Hne' : i <> j) by congruence.
+    destruct (step_conflict_excluded _ _ _ _ _ _ Hinv1 Hs Hi1 Hne') as [Hw Hrd]. split.
+    - intros f -> Hg. specialize (Hw f eq_refl). cbn in Hw. rewrite Hg, leqb_refl in Hw. discriminate.
+    - intros f -> Hg. specialize (Hrd f eq_refl). cbn in Hrd. rewrite Hg, leqb_refl in Hrd.
+      destruct md; [exists k'; exact Hi1|congruence].
+  Qed.
 End Generic.
+
 
 (* ------------------------------------------------------------------------------------------ *)
 (* The checker is stable under an injective renaming of locks that commutes with guard and rank:
@@ -403,7 +557,15 @@ Section Rename.
     unfold check_fn. change (@nil (L' * mode)) with (mapls []). rewrite check_smap.
     destruct (check leqb guard rank nb ord [] s) as [[[|e l]|]|]; reflexivity.
   Qed.
+  Lemma check_cont_smap k : forall ls,
+    check_cont leqb' guard' rank' nb ord (mapls ls) (map (smap fl ff) k) = check_cont leqb guard rank nb ord ls k.
+  Proof.
+    induction k as [|s k IH]; intro ls; cbn [map check_cont].
+    - apply is_nil_map.
+    - rewrite check_smap. destruct (check leqb guard rank nb ord ls s) as [[l1|]|]; cbn; auto.
+  Qed.
 End Rename.
+
 
 (* ------------------------------------------------------------------------------------------ *)
 (* The relay instance: syntactic program, threads over runtime objects. *)
@@ -426,8 +588,11 @@ Definition runs (prog : program) (p : @pool oname oname) : Prop :=
   forall i t, nth_error p i = Some t ->
     exists name body rho, In (name, body) prog /\ injective rho /\ t = ([], [inst rho body]).
 
-Definition reach (prog : program) (q : @pool oname oname) : Prop :=
-  exists p, runs prog p /\ steps oname_eqb p q.
+(* reachable pools; [nb]/[ord] select which discipline the code a thread may jump to has to satisfy
+   (the same one the program is checked against) *)
+Definition ojump (nb ord : bool) := @jump_chk oname oname oname_eqb guard_of rank_of nb ord.
+Definition reach (nb ord : bool) (prog : program) (q : @pool oname oname) : Prop :=
+  exists p, runs prog p /\ steps oname_eqb (ojump nb ord) p q.
 
 Section Relay.
   Variable nb ord : bool.
@@ -452,18 +617,18 @@ Section Relay.
   Qed.
 
   Lemma reach_inv prog q :
-    all_fns chk prog = true -> reach prog q -> inv oname_eqb guard_of rank_of nb ord q.
+    all_fns chk prog = true -> reach nb ord prog q -> inv oname_eqb guard_of rank_of nb ord q.
   Proof.
     intros Hall (p & Hr & Hs). eapply steps_inv; [exact oname_eqb_spec| |exact Hs].
     apply initial_inv. apply (runs_initial prog); assumption.
   Qed.
 End Relay.
 
-Theorem prog_race_free prog q : well_locked_prog prog = true -> reach prog q -> ~ race q.
+Theorem prog_race_free prog q : well_locked_prog prog = true -> reach false false prog q -> ~ race q.
 Proof. intros Hw Hr. eapply inv_no_race. eapply (reach_inv false false prog); eassumption. Qed.
 
 Theorem prog_excl_section_uninterrupted prog q i j t u m f w :
-  well_locked_prog prog = true -> reach prog q ->
+  well_locked_prog prog = true -> reach false false prog q ->
   nth_error q i = Some t -> held oname_eqb m (fst t) = Some Ex ->
   nth_error q j = Some u -> at_access u f w -> guard_of f = m -> j = i.
 Proof.
@@ -471,7 +636,7 @@ Proof.
 Qed.
 
 Theorem prog_shared_section_sees_no_write prog q i j t u m f :
-  well_locked_prog prog = true -> reach prog q ->
+  well_locked_prog prog = true -> reach false false prog q ->
   nth_error q i = Some t -> held oname_eqb m (fst t) <> None ->
   nth_error q j = Some u -> at_access u f true -> guard_of f = m -> j = i.
 Proof.
@@ -479,14 +644,15 @@ Proof.
 Qed.
 
 Theorem prog_no_block_while_locked prog q i t :
-  no_block_while_locked prog = true -> reach prog q ->
+  no_block_while_locked prog = true -> reach true false prog q ->
   nth_error q i = Some t -> at_block t -> fst t = [].
 Proof.
   intros Hw Hr. eapply inv_no_block_while_locked; [reflexivity|]. eapply (reach_inv true false prog); eassumption.
 Qed.
 
 Theorem prog_no_wait_cycle prog q i :
-  lock_order_ok prog = true -> reach prog q -> ~ clos_trans nat (waits_for oname_eqb q) i i.
+  lock_order_ok prog = true -> reach false true prog q -> ~ clos_trans nat (waits_for oname_eqb q) i i.
 Proof.
-  intros Hw Hr. eapply (inv_no_wait_cycle oname_eqb oname_eqb_spec); [reflexivity|]. eapply (reach_inv false true prog); eassumption.
+  intros Hw Hr. eapply (inv_no_wait_cycle oname_eqb oname_eqb_spec); [reflexivity|].
+  eapply (reach_inv false true prog); eassumption.
 Qed.
